@@ -79,6 +79,15 @@ def render(rng, items, words, acreage=False):
     for i, it in enumerate(items):
         if isinstance(it, tuple):
             j = rng.choice(THRU)
+            r = rng.random()
+            if r < 0.06:
+                j = j.upper()                   # ' THROUGH ', ' TO '
+            elif r < 0.12:
+                j = j.title()                   # ' Thru '
+            elif r < 0.20:
+                # the list wraps onto the next line right after the
+                # connective: '1-\n3', '1 through\n3'
+                j = j.rstrip(' ') + '\n'
             right = str(it[1])
             if rng.random() < 0.2:
                 # keyword repeated after the 'through'
@@ -98,7 +107,10 @@ def render(rng, items, words, acreage=False):
     for i, p in enumerate(parts[1:], 1):
         last = i == len(parts) - 1
         out += (rng.choice(AND_LAST) if last else rng.choice(AND_MID)) + p
-    return s + out
+    text = s + out
+    if rng.random() < 0.05:
+        text = text.upper()                     # 'SECTIONS 3 THROUGH 6'
+    return text
 
 
 def check_sec(items, txt, ctx, rep, pytrs):
